@@ -136,3 +136,12 @@ def jsonSafeKvs : List (Str × PyVal) → Bool
 end
 
 end PM.PyOps
+
+namespace PM.PyOps
+/-- results of model functions can be compared by `decide` when their payload can -/
+instance instDecEqExceptErr {α : Type} [DecidableEq α] : DecidableEq (Except Err α)
+  | .ok a, .ok b => if h : a = b then isTrue (by rw [h]) else isFalse (by intro e; cases e; exact h rfl)
+  | .error a, .error b => if h : a = b then isTrue (by rw [h]) else isFalse (by intro e; cases e; exact h rfl)
+  | .ok _, .error _ => isFalse (by intro e; cases e)
+  | .error _, .ok _ => isFalse (by intro e; cases e)
+end PM.PyOps
